@@ -41,6 +41,16 @@ import Batchie.Lemmas.Rand
 | quantifier "any prior state of the global generator, any interleaving of unrelated global draws between two runs" | the ∀ Γ Γ' Ω Ω' of the above; for whole HISTORIES of calls in one process (other operations, other seeds, excluded operations in between): `C18_history_independent`; the trace as a function of the arguments: `C18_trace_function_of_arguments` |
 | "all inputs and seeds" | ∀ `a : Args` (every input shape the trace depends on), ∀ `g` (the stream of ANY seed), ∀ `out` (uninterpreted function of inputs and drawn values) |
 
+| "each command-line step given --seed", all six commands at once, every seed incl. 0 | `C18_seeded_commands` (`Op.isSeededCommand`), `C18_cliAnalyzeModelEvaluation`, `C18_cli_generator_function_of_seed` |
+| iteration order of the items that receive draws is a function of the SET of items | `C18_sorted_iteration_order_independent` |
+
+Regression (not a clause) -- definitions that are NOT the code, each refuted on a witness:
+* fix 1fd9f14 `analyzeEventsOld` (analyze_model_evaluation ignored --seed: unseeded bootstrap): `C18_analyze_old_counterexample`;
+* S7-C18 `cliGeneratorOld` (`if args.seed:`, seed 0 = no seed): `C18_seed0_old_counterexample` (and: agrees with the code for every seed ≠ 0);
+* S5-C18 `dbalCachedOld` (scorer object keeps the triples of its first call): `C18_triple_cache_old_counterexample`; positive side `C18_history_independent`;
+* S3-C18 iteration over a hash-ordered set: `C18_set_order_old_counterexample`; positive side `C18_sorted_iteration_order_independent`;
+* fix-era: `C18_conditional_install_interferes`, `C18_no_rng_fallback_depends_on_entropy`, `C18_vi_model_interferes`.
+
 harness-only (cannot be stated in this functional model):
 * that the model's source tags ARE the code's (trace correspondence, all three sources instrumented);
 * numpy's generator laws ("an identically seeded generator delivers identical values", SeedSequence.spawn);
@@ -128,6 +138,10 @@ theorem C18_cliTrainModel (a : Args) : OnlyG (prog .cliTrainModel a) := C18_samp
 theorem C18_cliEvaluateModel (a : Args) : OnlyG (prog .cliEvaluateModel a) ∧ trace .cliEvaluateModel a = [] :=
   ⟨OnlyG.ret [], rfl⟩
 
+/-- `analyze_model_evaluation --seed` (after fix 1fd9f14): the bootstrap draws of all regression plots come from the generator of `--seed` -/
+theorem C18_cliAnalyzeModelEvaluation (a : Args) : OnlyG (prog .cliAnalyzeModelEvaluation a) :=
+  onlyG_fromEvents _ (allG_flatten _ (fun l hl => by rw [List.eq_of_mem_replicate hl]; exact allG_rep _ _))
+
 /-! ### assembly -/
 
 /-- every operation that is not excluded by name draws from G only, whatever its arguments -/
@@ -139,7 +153,7 @@ theorem C18_claimed_onlyG (op : Op) (hop : op.excluded = false) (a : Args) : Onl
     | exact C18_kPerSamplePolicy a | exact C18_selectNextPlate a | exact C18_scoreChunk a
     | exact C18_sampleMvn a | exact C18_gibbsSweep a | exact C18_sampleMCMC a
     | exact C18_cliPrepareRetrospective a | exact C18_cliCalculateScores a
-    | exact C18_cliSelectNextPlate a | exact C18_cliTrainModel a | exact (C18_cliEvaluateModel a).1
+    | exact C18_cliSelectNextPlate a | exact C18_cliTrainModel a | exact (C18_cliEvaluateModel a).1 | exact C18_cliAnalyzeModelEvaluation a
 
 /-- Non-interference for every modelled operation except those excluded by name: for all
 arguments `a` (input shapes, options, the value-dependent loop decision of the greedy cover), all
@@ -172,16 +186,97 @@ claimed CLI step is the same for equal seeds whatever the global state and the O
 both are returned unchanged. -/
 theorem C18_cli_seed (genOfSeed : Nat → Stream) (seed : Nat) (a : Args) (γ γ' ω ω' : Stream)
     (op : Op) (hop : op = .cliPrepareRetrospective ∨ op = .cliCalculateScores ∨
-      op = .cliSelectNextPlate ∨ op = .cliTrainModel ∨ op = .cliEvaluateModel) :
+      op = .cliSelectNextPlate ∨ op = .cliTrainModel ∨ op = .cliEvaluateModel ∨
+      op = .cliAnalyzeModelEvaluation) :
     (runCli genOfSeed seed op a γ ω).out = (runCli genOfSeed seed op a γ' ω').out ∧
     (runCli genOfSeed seed op a γ ω).world.γ = γ ∧
     (∀ e ∈ (runCli genOfSeed seed op a γ ω).trace, e.src = .supplied) ∧
     prog .cliCalculateScores a = prog .scoreChunk a ∧
     prog .cliSelectNextPlate a = prog .selectNextPlate a ∧
     prog .cliTrainModel a = prog .sampleMCMC a := by
-  have hex : op.excluded = false := by rcases hop with rfl | rfl | rfl | rfl | rfl <;> rfl
+  have hex : op.excluded = false := by rcases hop with rfl | rfl | rfl | rfl | rfl | rfl <;> rfl
   have := C18_noninterference_partial op hex a id (genOfSeed seed) γ γ' ω ω'
   exact ⟨this.1, this.2.2.1, this.2.2.2.2, rfl, rfl, rfl⟩
+
+/-- EVERY command of the model that takes `--seed` (`Op.isSeededCommand`: prepare_retrospective_simulation, calculate_scores,
+select_next_plate, train_model with a Gibbs model, evaluate_model, analyze_model_evaluation), for every value of the seed argument
+-- 0 included --, all arguments, all states of the global generator and of the OS entropy: the result is a function of the seed,
+every draw comes from the generator built from the seed, the global state and the entropy source are returned untouched. -/
+theorem C18_seeded_commands (op : Op) (hop : op.isSeededCommand = true) (genOfSeed : Nat → Stream) (seed : Nat)
+    (a : Args) (γ γ' ω ω' : Stream) :
+    (runCli genOfSeed seed op a γ ω).out = (runCli genOfSeed seed op a γ' ω').out ∧
+    (runCli genOfSeed seed op a γ ω).trace = (runCli genOfSeed seed op a γ' ω').trace ∧
+    (runCli genOfSeed seed op a γ ω).world.γ = γ ∧ (runCli genOfSeed seed op a γ ω).world.ω = ω ∧
+    (∀ e ∈ (runCli genOfSeed seed op a γ ω).trace, e.src = .supplied) := by
+  have hex : op.excluded = false := by cases op <;> first | rfl | (simp [Op.isSeededCommand] at hop)
+  have := C18_noninterference_partial op hex a id (genOfSeed seed) γ γ' ω ω'
+  exact ⟨this.1, this.2.1, this.2.2.1, this.2.2.2.1, this.2.2.2.2⟩
+
+/-- the generator of a command is a function of the seed argument alone, for ALL seeds -- in particular for the falsy seed 0 --
+and the OS entropy is not consulted -/
+theorem C18_cli_generator_function_of_seed (genOfSeed : Nat → Stream) (seed : Nat) (ω ω' : Stream) :
+    cliGenerator genOfSeed seed ω = genOfSeed seed ∧ cliGenerator genOfSeed seed ω = cliGenerator genOfSeed seed ω' ∧
+    cliGenerator genOfSeed 0 ω = genOfSeed 0 :=
+  ⟨rfl, rfl, rfl⟩
+
+/-! ### regression lemmas (seeded changes of later rounds and the pre-fix tree; the definitions are NOT the code) -/
+
+/-- fix 1fd9f14 (`analyze_model_evaluation` ignored `--seed`): with the pre-fix definition -- every regression plot bootstraps from its own
+unseeded generator -- the command's result depends on the OS entropy, consumes it, and none of its draws is from G; one plot with two
+bootstrap draws is a witness -/
+theorem C18_analyze_old_counterexample :
+    ∃ (g γ ω ω' : Stream),
+      (run (fromEvents (analyzeEventsOld 1 2)) ⟨g, γ, ω⟩).out ≠ (run (fromEvents (analyzeEventsOld 1 2)) ⟨g, γ, ω'⟩).out ∧
+      (run (fromEvents (analyzeEventsOld 1 2)) ⟨g, γ, ω⟩).world.ω 0 ≠ ω 0 ∧
+      (∀ e ∈ (run (fromEvents (analyzeEventsOld 1 2)) ⟨g, γ, ω⟩).trace, e.src = .fresh) ∧
+      (∀ e ∈ trace .cliAnalyzeModelEvaluation { n := 1, k := 2 }, e.src = .supplied) := by
+  refine ⟨fun _ => 0, fun _ => 0, fun i => i, fun i => i + 1, ?_, ?_, ?_, ?_⟩ <;> decide
+
+/-- S7-C18 (`if args.seed:` -- `--seed 0` treated as no seed): with the regression definition the generator at seed 0 IS the OS entropy, so a
+seeded step (the random hold-out) run twice with `--seed 0` gives different results; for every other seed the regression definition agrees
+with the code (which is why only the falsy boundary shows it) -/
+theorem C18_seed0_old_counterexample :
+    (∃ (genOfSeed : Nat → Stream) (γ ω ω' : Stream),
+      (run (prog .randomHoldout {}) ⟨cliGeneratorOld genOfSeed 0 ω, γ, ω⟩).out ≠
+        (run (prog .randomHoldout {}) ⟨cliGeneratorOld genOfSeed 0 ω', γ, ω'⟩).out) ∧
+    (∀ (genOfSeed : Nat → Stream) (seed : Nat) (ω : Stream), seed ≠ 0 →
+      cliGeneratorOld genOfSeed seed ω = cliGenerator genOfSeed seed ω) := by
+  constructor
+  · refine ⟨fun _ _ => 0, fun _ => 0, fun i => i, fun i => i + 1, ?_⟩; decide
+  · intro genOfSeed seed ω h; simp [cliGeneratorOld, cliGenerator, h]
+
+/-- S5-C18 (a scorer object that keeps the triples of its first call): the second call on the used object, handed a generator that delivers 2,
+returns the first call's value 1 and makes NO draw, whereas the same call on a fresh object returns 2 with one G draw.  The model of the code has
+no object memory: `C18_history_independent`. -/
+theorem C18_triple_cache_old_counterexample :
+    let first := dbalCachedOld none (fun _ => 1)
+    let second := dbalCachedOld first.2 (fun _ => 2)
+    let fresh := dbalCachedOld none (fun _ => 2)
+    second.1 = (1, []) ∧ fresh.1 = (2, [ev .supplied .choice]) ∧ second.1 ≠ fresh.1 := by
+  decide
+
+/-- S3-C18 (iteration over a `set` of names: the order depends on the per-process hash salt): the same two items visited in the two possible
+orders receive different draws -/
+theorem C18_set_order_old_counterexample :
+    assigned [0, 1] (fun i => i + 10) 0 = some 10 ∧ assigned [1, 0] (fun i => i + 10) 0 = some 11 := by
+  decide
+
+/-- … whereas the code iterates over `np.unique(names)`: the SORTED items.  Whatever order the container lists the items in (any permutation),
+every item receives the same draw. -/
+theorem C18_sorted_iteration_order_independent (items items' : List Nat) (hperm : items.Perm items') (g : Stream) :
+    assignSorted items g = assignSorted items' g := by
+  unfold assignSorted
+  congr 1
+  refine List.Perm.eq_of_pairwise (le := fun a b => decide (a ≤ b)) ?_ ?_ ?_
+    ((List.mergeSort_perm _ _).trans (hperm.trans (List.mergeSort_perm _ _).symm))
+  · intro a b _ _ hab hba
+    exact Nat.le_antisymm (of_decide_eq_true hab) (of_decide_eq_true hba)
+  · apply List.pairwise_mergeSort
+    · intro a b c hab hbc; exact decide_eq_true (Nat.le_trans (of_decide_eq_true hab) (of_decide_eq_true hbc))
+    · intro a b; simpa using Nat.le_total a b
+  · apply List.pairwise_mergeSort
+    · intro a b c hab hbc; exact decide_eq_true (Nat.le_trans (of_decide_eq_true hab) (of_decide_eq_true hbc))
+    · intro a b; simpa using Nat.le_total a b
 
 /-! ### what is excluded really interferes (the full-strength statement is false) -/
 
